@@ -95,7 +95,52 @@ def check_df(combos, shuffle, kind):
     return probs
 
 
+def check_cases(cases, shuffle, to_df, spelling):
+    """case sweeps: Runner.run_cases with dict cases (keys in varying order) or tuple cases with fn_args"""
+    r = xyz.Runner(f2, var_names=["x", "y"], constants={"c": 1}, resources={"big": 0})
+    if spelling == "dict":
+        cs = []
+        for j, (a, b) in enumerate(cases):
+            cs.append({"b": b, "a": a} if j % 2 else {"a": a, "b": b})
+        kw = {}
+    else:
+        cs = [(b, a) for a, b in cases]
+        kw = {"fn_args": ("b", "a")}
+    with quiet():
+        out = r.run_cases(cs, shuffle=shuffle, to_df=to_df, verbosity=0, **kw)
+    probs = []
+    if to_df:
+        if len(out) != len(cases):
+            probs.append(f"{len(out)} rows for {len(cases)} cases")
+        got = sorted((int(row["a"]), int(row["b"]), row["x"], row["y"]) for _, row in out.iterrows())
+        want = sorted((a, b) + f2(a, b, c=1) for a, b in cases)
+        if got != want:
+            probs.append(f"rows {got}, expected {want}")
+    else:
+        for a, b in cases:
+            try:
+                sel = out.sel(a=a, b=b)
+                got = (float(sel["x"].values), float(sel["y"].values))
+            except Exception as e:
+                probs.append(f"case a={a} b={b} cannot be selected: {type(e).__name__}")
+                break
+            if got != tuple(float(v) for v in f2(a, b, c=1)):
+                probs.append(f"sel(a={a}, b={b}) gives {got}, function returned {f2(a, b, c=1)}")
+                break
+    return probs
+
+
 tried = 0
+for rep in range(8):
+    pool = [(a, b) for a in (1, 2, 3, 4) for b in (10, 20, 30)]
+    cases = rnd.sample(pool, rnd.randint(1, 5))
+    for shuffle in (False, 2):
+        for to_df in (False, True):
+            for spelling in ("dict", "tuple"):
+                tried += 1
+                pr = check_cases(cases, shuffle, to_df, spelling)
+                if pr:
+                    finish(True, input=dict(form="DataFrame" if to_df else "Dataset", cases=cases, shuffle=shuffle, spelling=spelling), observed=pr, tried=tried)
 for rep in range(6):
     combos = {"a": rnd.sample([1, 2, 3, 4, 5], rnd.randint(1, 4)), "b": rnd.sample([1, 2, 3], rnd.randint(1, 3))}
     for shuffle in (False, True, 3):
